@@ -1684,6 +1684,9 @@ impl Node {
         channel_id: ChannelId,
         arc_self: &Arc<Node>,
     ) -> Result<(ChannelId, Option<ChannelSlot>), Status> {
+        // Read the chain height before taking the channels lock: setup_channel and the
+        // heartbeat take the tracker lock first and the channels lock second.
+        let blockheight = arc_self.get_tracker().height();
         let mut channels = self.get_channels();
         let policy = self.policy();
         if channels.len() >= policy.max_channels() {
@@ -1706,7 +1709,6 @@ impl Node {
         let keys =
             self.keys_manager.get_channel_keys_with_id(channel_id.clone(), channel_value_sat);
 
-        let blockheight = arc_self.get_tracker().height();
         let stub = ChannelStub {
             node: Arc::downgrade(arc_self),
             secp_ctx: Secp256k1::new(),
